@@ -99,6 +99,8 @@ class C15(Prop):
         yield "accessor", ga.reading_cases(rows, rng, nv * 4)
         yield "accessor", ga.sequence_cases(rows, rng, {"quick": 1500, "search": 4000, "thorough": 20000}[tier], 4 if tier != "thorough" else 6)
         yield "accessor-any", ga.malformed_cases(rows, rng, {"quick": 3000, "search": 8000, "thorough": 40000}[tier])
+        yield "accessor-any", ga.wild_setter_cases(rows, rng, {"quick": 2000, "search": 6000, "thorough": 40000}[tier])
+        yield "accessor-any", ga.exhaustive_raw_cases(rows, {"quick": 3, "search": 3, "thorough": 4}[tier])
         yield "control-select", ga.control_cases(rng, {"quick": 1500, "search": 4000, "thorough": 20000}[tier], tier)
 
     # ------------------------------------------------------------------ oracle
